@@ -27,9 +27,11 @@ together with `head`/`tail` ids read from the C heap (`harness/shim_slist.c`, `l
 of the nodes one by one on every run.
 
 `history_refines`/`history_refines_ideal` quantify over `List POp` (16 operations incl. `filter_mut` and the exchange of roles).
-Not at pointer level (they keep their sequence-level models and theorems): the iterator and zip mutators, `sort` (rewrites
-`data` only) and the derived-list builders; after one of these the driver rebuilds the pointer-level state from the sequence-level
-one and both sides renumber their nodes (links are still compared, node identity across that operation is not). -/
+Elsewhere at link level: `cc_slist_sort` in `C18PList.lean`, the derived-list builders in `C15PList.lean`.
+**Not at pointer level** (they keep their sequence-level models and theorems, `C07List`): the iterator and the zip
+iterator's `add`/`remove`/`replace` of the singly linked list (the cursor carries its own `prev`); after one of these the
+driver rebuilds the pointer-level state from the sequence-level one and both sides renumber their nodes (links are still
+compared, node identity across that call is not). -/
 namespace CC.Properties.C04PSList
 open CC CC.Chain CC.PSList
 open CC.PList (Heap St Hdr Cell idsOf dataOf POp PS absPair lastOr)
